@@ -48,10 +48,12 @@ type Sched struct {
 	Yields    uint64
 	Decisions uint64
 	Switches  uint64
-	MaxYields uint64
+	MaxYields uint64 // budget per Run call
+	runYields uint64
 	aborting  bool
 	AbortWhy  string
 	Deadlock  bool
+	DeadlockInfo string
 
 	Cover []uint32 // per-site hit counters
 
@@ -297,7 +299,8 @@ func (s *Sched) Yield(site int) {
 	if site < len(s.Cover) {
 		s.Cover[site]++
 	}
-	if s.Yields > s.MaxYields {
+	s.runYields++
+	if s.runYields > s.MaxYields {
 		s.aborting = true
 		s.AbortWhy = "yield budget exhausted"
 		s.mu.Unlock()
@@ -460,6 +463,9 @@ func (s *Sched) Adopt(name string) func() {
 // and returns when every actor has finished (or the run was aborted and
 // everybody unwound).
 func (s *Sched) Run() {
+	s.mu.Lock()
+	s.runYields = 0
+	s.mu.Unlock()
 	for {
 		synctest.Wait()
 		s.mu.Lock()
@@ -538,6 +544,13 @@ func (s *Sched) Run() {
 			if !s.waitKick() {
 				s.mu.Lock()
 				s.Deadlock = true
+				desc := ""
+				for _, g := range s.all {
+					if g.state != gDone {
+						desc += fmt.Sprintf(" [%s state=%d lockWait=%v granted=%v site=%d]", g.Name, g.state, g.lockWait, g.granted, g.site)
+					}
+				}
+				s.DeadlockInfo = desc
 				s.mu.Unlock()
 				s.Abort("deadlock: nothing runnable for one simulated hour")
 			}
